@@ -63,8 +63,8 @@ def impl_write_response(loop, server, code, lines, list_mode):
     st = CapStream()
     try:
         loop.run_until_complete(server.write_response(st, code, lines, list_mode))
-    except ValueError:
-        return ("err", "ValueError")
+    except Exception as e:  # ValueError = too few lines (tuple unpacking); anything else is reported by class
+        return ("err", type(e).__name__)
     return ("ok", st.data)
 
 
